@@ -14,7 +14,7 @@ import vlib
 DEV = "await-weight-not-scheduled"
 INVS = {
     "C08": {"AtTrigger", "Ordered", "Barrier", "OnceOrCancelled"},
-    "C09": {"CancelBefore", "KeepAfter", "NonCriticalSilent", "OnlyCriticalFailuresAffect"},
+    "C09": {"CancelBefore", "KeepAfter", "NonCriticalSilent", "OnlyCriticalFailuresAffect", "CriticalFailureReported"},
     "C10": {"SetBetween", "Stable", "Gone", "StampOrder", "NoLeak", "EndExactlyOnce"},
 }
 TEV = {"START_ACTIVITY": "START", "STOP_ACTIVITY": "STOP", "RESET": "RESET", "CONFIGURE": "CONFIGURE"}
@@ -31,12 +31,12 @@ def expr(m, w):
     return "%s%+d" % (m, w)
 
 
-def scenario(sid, case, gate=None):
+def scenario(sid, case, gate=None, timeout="5s", gap_ms=0):
     cls = "ehs%dt1" % sid
     roles = cs.role_task("t1", cls)
     hooks = {}
     for h in sorted(case["hooks"], key=lambda x: x["id"]):
-        roles += cs.role_call(h["id"], h["id"], expr(h["tm"], h["tw"]), expr(h["am"], h["aw"]), critical=h["crit"])
+        roles += cs.role_call(h["id"], h["id"], expr(h["tm"], h["tw"]), expr(h["am"], h["aw"]), critical=h["crit"], timeout=timeout)
         b = {"outcome": "fail" if h["fails"] else "ok"}
         if gate == h["id"]:
             b["gate"] = "G"
@@ -52,10 +52,12 @@ def scenario(sid, case, gate=None):
                       {"do": "release", "point": "probe:G"}, {"do": "await", "caller": "A%d" % i}]
         else:
             steps.append({"do": "control", "env": "e1", "op": ev})
+        if gap_ms:
+            steps.append({"do": "sleep", "ms": gap_ms})   # lets a declared call timeout elapse before the next request
     steps += [{"do": "destroy", "env": "e1", "force": True}, {"do": "settle", "ms": 20}]
     model = {"hooks": sorted(case["hooks"], key=lambda x: x["id"]), "plan": case["plan"], "bodyfails": case["bodyfails"],
              "pred": case["pred"], "gate": gate or ""}
-    return {"id": sid, "family": "EnvHooks" + ("-gated" if gate else ""), "agents": cs.DEFAULT_AGENTS,
+    return {"id": sid, "family": "EnvHooks" + ("-gated" if gate else "") + ("-slow" if gap_ms else ""), "agents": cs.DEFAULT_AGENTS,
             "files": {"tasks/%s.yaml" % cls: cs.task_class(cls), "workflows/%s.yaml" % wf: cs.workflow(wf, roles)},
             "core": {}, "scripts": [], "hooks": hooks, "steps": steps, "model": model}
 
@@ -85,7 +87,7 @@ def project(lines):
                 out.append({"ev": "Acq" if ln["point"].endswith("acquired") else "Rel", "scn": scn, "what": ln["what"], "st": ln["st"]})
             elif ev == "Hook" and ln.get("point") in ("env.hooks.start", "env.hooks.awaited") and ln.get("env") == "e1":
                 out.append({"ev": "HStart" if ln["point"].endswith("start") else "HAwaited", "scn": scn, "m": ln["trigger"], "w": ln["weight"],
-                            "calls": [c.rsplit(".", 1)[-1] for c in ln["calls"]]})
+                            "calls": [c.rsplit(".", 1)[-1] for c in ln["calls"]], "errors": ln.get("errors", 0)})
             elif ev == "EnvEv" and ln.get("env") == "e1" and ln["msg"] in ("transition step starting", "transition step finished"):
                 step = ln["step"]
                 k = step.split("_", 1)[0]
@@ -123,10 +125,10 @@ def run_family(ctx, pid):
                 "plus gated variants in which a hook's call is held while the state machine proceeds; non-trivial = a hook fails, "
                 "awaits elsewhere than it triggers, or the body fails")
     # 1. exhaustive model check of the catalogue
-    ctx.model_check("EnvHooksMC", None, cfg_text="SPECIFICATION Spec\n" + consts(ctx, '{"h1", "h2"}', "Cfg2Valid") +
+    ctx.model_check("EnvHooksMC", None, cfg_text="SPECIFICATION Spec\n" + consts(ctx, '{"h1", "h2"}', "CfgAll") +
                     "INVARIANTS " + MODEL_INVS + "\nCHECK_DEADLOCK FALSE\n")
     # 2. cases + predictions from TLC
-    r = ctx.tlc("EnvHooksGen", None, workers=1, cfg_text="SPECIFICATION GenSpec\n" + consts(ctx, '{"h1", "h2"}', "Cfg2Valid") +
+    r = ctx.tlc("EnvHooksGen", None, workers=1, cfg_text="SPECIFICATION GenSpec\n" + consts(ctx, '{"h1", "h2"}', "CfgAll") +
                 "INVARIANT PrintCase\nCHECK_DEADLOCK FALSE\n")
     cases = [json.loads(c[1]) for c in r.records("CASE")]
     if not cases:
@@ -134,7 +136,16 @@ def run_family(ctx, pid):
         raise vlib.Inconclusive("no cases generated: " + vlib.tail(r.out))
     rng.shuffle(cases)
     interesting = [c for c in cases if any(h["fails"] or (h["tm"], h["tw"]) != (h["am"], h["aw"]) for h in c["hooks"]) or c["bodyfails"]]
-    plain = interesting[:(90 if quick else 600)]
+    # the "two hooks meeting in one moment" catalogue (Cfg3Valid: h2 may be non-critical) is replayed completely
+    def is_meet(c):
+        h2 = next(h for h in c["hooks"] if h["id"] == "h2")
+        return h2["tm"] in ("leave_CONFIGURED", "enter_RUNNING") and c["plan"] == ["START_ACTIVITY", "STOP_ACTIVITY"] and not c["bodyfails"]
+    meet = [c for c in cases if is_meet(c)]
+    rest = [c for c in interesting if not is_meet(c)]
+    plain = rest[:(70 if quick else 600)] + meet
+    # calls whose await point is reached long after their declared timeout
+    slow = [c for c in rest if any(h["id"] == "h1" and h["tm"].endswith("START_ACTIVITY") and h["am"] == "after_STOP_ACTIVITY" for h in c["hooks"])
+            and c["plan"] == ["START_ACTIVITY", "STOP_ACTIVITY"] and not c["bodyfails"]][:(4 if quick else 16)]
     gated = [c for c in interesting if any(h["id"] == "h1" and (h["tm"], h["tw"]) != (h["am"], h["aw"]) for h in c["hooks"])]
     # the schedule-sensitive family: same moment, later weight
     samemom = [c for c in gated if any(h["id"] == "h1" and h["tm"] == h["am"] for h in c["hooks"])]
@@ -147,13 +158,25 @@ def run_family(ctx, pid):
     for c in gated:
         sid += 1
         scenarios.append(scenario(sid, c, gate="h1"))
+    for c in slow:
+        sid += 1
+        scenarios.append(scenario(sid, c, timeout="200ms", gap_ms=450))
     by_id = {s["id"]: s for s in scenarios}
     for s in scenarios:
         ctx.count_case(json.dumps(s["model"], sort_keys=True), nontrivial=True)
     ctx.exhaustive = False
-    ctx.log("cases from TLC: %d; scenarios: %d plain + %d gated" % (len(cases), len(plain), len(gated)))
-    # 3. run on the real core
-    lines = cs.run_scenarios(ctx, scenarios)
+    ctx.log("cases from TLC: %d; scenarios: %d plain + %d gated + %d slow" % (len(cases), len(plain), len(gated), len(slow)))
+    # 3. run on the real core, 4. validate
+    judge(ctx, pid, scenarios, cs.run_scenarios(ctx, scenarios))
+
+
+def replay_family(ctx, pid, obj):
+    s = obj["scenario"]
+    judge(ctx, pid, [s], cs.run_scenarios(ctx, [s]))
+
+
+def judge(ctx, pid, scenarios, lines):
+    by_id = {s["id"]: s for s in scenarios}
     proj = project(lines)
     tf = ctx.path("trace.ndjson")
     ctx.write_ndjson(tf, proj)
